@@ -226,12 +226,65 @@ def gen_argon2(repo):
     out.append("Definition argon2_col_indices : list (list nat) := [" + "; ".join(nl(r) for r in cols) + "].")
     return out
 
+def split_stmts(text):
+    """split at ';' outside brackets / parentheses"""
+    out, depth, cur = [], 0, ""
+    for ch in text:
+        if ch in "([{": depth += 1
+        elif ch in ")]}": depth -= 1
+        if ch == ";" and depth == 0:
+            if cur.strip(): out.append(cur.strip())
+            cur = ""
+        else: cur += ch
+    if cur.strip(): out.append(cur.strip())
+    return out
+
+def gen_blake2b(repo):
+    """src/blake2b/blake2b_soft.rs compress: the g closure, the round closure, the round calls"""
+    src = strip_comments(open(os.path.join(repo, "src/blake2b/blake2b_soft.rs")).read()).split("#[cfg(test)]")[0]
+    body = norm(fn_body(src, "compress", "blake2b_soft.rs"))
+    pro = ("let mut tm = [0u64; 16]; let mut tv = [0u64; 16]; for i in 0..16 { tm[i] = load_u64_le(&block[(i * 8)..(i * 8 + 8)]); } "
+           "tv[..8].copy_from_slice(sh); tv[8] = IV[0]; tv[9] = IV[1]; tv[10] = IV[2]; tv[11] = IV[3]; "
+           "tv[12] = st[0] ^ IV[4]; tv[13] = st[1] ^ IV[5]; tv[14] = sf[0] ^ IV[6]; tv[15] = sf[1] ^ IV[7]; ")
+    epi = " for i in 0..8 { sh[i] = sh[i] ^ tv[i] ^ tv[i + 8]; }"
+    if not body.startswith(pro) or not body.endswith(epi):
+        raise SystemExit("vgen(kernels): blake2b compress prologue / epilogue differs from the modelled shape")
+    mid = body[len(pro):len(body) - len(epi)]
+    mg = re.match(r"let mut g = \|r: usize, i: usize, a: usize, b: usize, c: usize, d: usize\| \{ (.*?) \}; let mut round = \|r\| \{ (.*?) \}; (.*)", mid)
+    if not mg: raise SystemExit("vgen(kernels): blake2b compress closures differ from the modelled shape")
+    pos = {"a": 0, "b": 1, "c": 2, "d": 3}
+    ops = []
+    for st in split_stmts(mg.group(1)):
+        m1 = re.fullmatch(r"tv\[([abcd])\] = tv\[([abcd])\]\.wrapping_add\(tv\[([abcd])\]\.wrapping_add\(tm\[\(SIGMA\[r\] as \[usize; 16\]\)\[2 \* i( \+ 1)?\]\]\)\)", st)
+        m2 = re.fullmatch(r"tv\[([abcd])\] = rotr64\(tv\[([abcd])\] \^ tv\[([abcd])\], (\d+)\)", st)
+        m3 = re.fullmatch(r"tv\[([abcd])\] = tv\[([abcd])\]\.wrapping_add\(tv\[([abcd])\]\)", st)
+        if m1 and m1.group(1) == m1.group(2): ops.append("(0%%nat, %d%%nat, %d%%nat, %d)" % (pos[m1.group(1)], pos[m1.group(3)], 1 if m1.group(4) else 0))
+        elif m2 and m2.group(1) == m2.group(2): ops.append("(1%%nat, %d%%nat, %d%%nat, %s)" % (pos[m2.group(1)], pos[m2.group(3)], m2.group(4)))
+        elif m3 and m3.group(1) == m3.group(2): ops.append("(2%%nat, %d%%nat, %d%%nat, 0)" % (pos[m3.group(1)], pos[m3.group(3)]))
+        else: raise SystemExit("vgen(kernels): unsupported statement in blake2b g: " + st)
+    calls = []
+    for st in [x.strip() for x in mg.group(2).split(";") if x.strip()]:
+        mm = re.fullmatch(r"g\(r, (\d+), (\d+), (\d+), (\d+), (\d+)\)", st)
+        if not mm: raise SystemExit("vgen(kernels): unsupported statement in blake2b round: " + st)
+        calls.append(tuple(int(mm.group(k)) for k in range(1, 6)))
+    rounds = []
+    for st in [x.strip() for x in mg.group(3).split(";") if x.strip()]:
+        mm = re.fullmatch(r"round\((\d+)\)", st)
+        if not mm: raise SystemExit("vgen(kernels): unsupported statement after the blake2b closures: " + st)
+        rounds.append(int(mm.group(1)))
+    out = ["(* blake2b_soft.rs compress: g closure statements (kind 0 add with message word 2i / 2i+1, 1 xor-rotate, 2 add; target, operand, parameter) *)",
+           "Definition blake2b_g_ops : list (nat * nat * nat * Z) := [" + "; ".join(ops) + "].",
+           "Definition blake2b_round_calls : list (nat * nat * nat * nat * nat) := [" + "; ".join("(%d%%nat, %d%%nat, %d%%nat, %d%%nat, %d%%nat)" % c for c in calls) + "].",
+           "Definition blake2b_rounds : list nat := %s." % nl(rounds)]
+    return out
+
 def generate(repo):
     out = ["(* GENERATED by bin/vgen (vkernel.py) from src/classic/crypto_core.rs and src/siphash24.rs -- do not edit *)",
            "From Coq Require Import ZArith List.\nFrom Dryoc Require Import Impl.KernelIR.\nImport ListNotations KernelIR.\nOpen Scope Z_scope.\n"]
     out += gen_cores(repo)
     out += gen_siphash(repo)
     out += gen_argon2(repo)
+    out += gen_blake2b(repo)
     return "\n".join(out) + "\n"
 
 if __name__ == "__main__":
